@@ -1,0 +1,20 @@
+//go:build verif
+// +build verif
+
+package model
+
+// VC13FormatField is one parsed element of a format string
+type VC13FormatField struct {
+	Typ   int
+	Value string
+}
+
+// VC13FormatFields exposes the parsed elements of a FormatParser. Compiled only under the build
+// tag `verif`.
+func VC13FormatFields(fp *FormatParser) []VC13FormatField {
+	res := make([]VC13FormatField, len(fp.fields))
+	for i, f := range fp.fields {
+		res[i] = VC13FormatField{Typ: f.typ, Value: f.value}
+	}
+	return res
+}
